@@ -309,7 +309,7 @@ structure CompactCfg where
 /-- does `tombstone_ttl.as_millis() as u64` saturate (`true`: the suggested repair
     `u64::try_from(..).unwrap_or(u64::MAX)`) or truncate modulo 2^64 (`false`: the code that
     exists — a TTL of 2^64 ms or more wraps around) -/
-def ttlSaturates : Bool := false
+def ttlSaturates : Bool := true
 
 /-- `self.config.tombstone_ttl.as_millis() as u64` -/
 def ttlToU64With (saturate : Bool) (ttlMs : Nat) : Nat :=
